@@ -576,7 +576,7 @@ func c17Check(c C17Case, rec *evid.Rec) error {
 }
 
 var c17Part = evid.Part[C17Case]{
-	Prop: "C17", Name: "kvmap", Quick: 1200, Thorough: 100000,
+	Prop: "C17", Name: "kvmap", Quick: 1200, Thorough: 60000,
 	Rule: "history of ≤40 put/put-stream/put-vec/re-put/two overlapping streams/has/get/get-stream/peek operations (methods and feature-detecting package functions) over a table of keys that each have one content, on memstore, cidlink.Memory, fsstore with defaults and with custom escaping (hex, base64url) × sharding (r12, r122, r133, none, a three-level function of the caller's); keys = CID binaries and hostile byte strings (NUL, '/', '..', '../../sentinel.txt', '.temp', 300-byte, high bytes, shared shard suffixes, prefixes, and near neighbours of other keys: the base32 / hex / base64url form of another key, one more / one changed trailing byte, equal for the first 31..129 bytes and differing after); model map + full scan at the end; for fsstore the tree outside the base directory is compared after every operation and every path handed to the OS (verif hook) must lie under the base; non-trivial = ≥2 distinct keys, a read after a put, and for fsstore a hostile key; distinct by the whole history",
 	Gen: func(t *rapid.T) C17Case {
 		c := C17Case{Store: rapid.SampledFrom([]string{"memstore", "cidmemory", "fsstore", "fsstore", "fsstore"}).Draw(t, "store")}
